@@ -86,7 +86,7 @@ _INGEST_RULE = ("generated CSV tables (1..4 columns; 0..2 blocks quick, 0..4 tho
 PROPS["C01"] = dict(
     registered=True,
     level_text='Kernel-checked theorems for every input table, key choice, run size and correct sort: the stored rows are exactly one input row per distinct key in strictly ascending key order (a permutation of the input when keys are unique), the row count matches, columns are kept, over-limit cells are refused with an error and nothing else is, the result is independent of row order / run size / sort, and every stored row reads back cell-for-cell at any size. Correspondence: ingest.IngestTable + GetTable/GetBlock == model on generated CSVs incl. 131072-byte cells, empty keys, duplicates.',
-    level_note=LEVEL_NOTE + 'encoding/csv tokenisation and s2 are trusted; worker-count independence is argued in C16 (the model is worker-agnostic because blocks are ordered by offset); the CLI commit/export path is not exercised by this check.',
+    level_note=LEVEL_NOTE + 'encoding/csv tokenisation and s2 are trusted; worker-count independence is argued in C16 (the model is worker-agnostic because blocks are ordered by offset); the CLI commit/export path (`wrgl commit`, also from the branch file set in the config, then `wrgl export`) is exercised in-process by 1 case in 12, not modelled.',
     lean_modules=["WrglModel.Props.C01"],
     quick_n=240, thorough_n=3000, rule=_INGEST_RULE,
     modelled="pkg/sorter/sorter.go, pkg/ingest/inserter.go (ingestTableFromBlocks, sortBlocks), objects.StrListEncoder/Decoder, block codec",
@@ -181,7 +181,7 @@ PROPS["C18"] = dict(
 PROPS["C05"] = dict(
     registered=True,
     level_text='Kernel-checked for tables with equal column lists (any key position, composite/absent key, any number of branches): the literal per-column decision chain of tryResolve equals the three-way rule (C05_resolveCell_spec), the whole modelled pipeline reports exactly the specified conflicts and yields exactly the specified rows (C05_model_meets_spec_partial), and the rule satisfies merge(base;X,base)=X, merge(base;X,X)=X, branch-order independence, conflicts for differing edits and remove-vs-modify, disjoint edits combine. Correspondence: merge.Merger (conflict records + SortedRows) == model and satisfies the spec on generated tuples with N=2..3.',
-    level_note=LEVEL_NOTE + 'PARTIAL: column adds/removes/reorders/renames per branch (CompareColumns, RearrangeRow) are not modelled; such inputs are run for crash-freedom only. Two known findings (untouched rows in base layout when the key is not first; keyless merges) are reported as KNOWN-FINDING. Row hashes are replaced by row equality.',
+    level_note=LEVEL_NOTE + 'PARTIAL: the table-level theorems are for branches with the column list of the base; column adds/removes/reorders per branch are modelled by name (Model/MergeCols.lean: mergedNames, rearrange, resolveRecCols; tied to the proved tryResolve by tryResolve_eq_L and C05_cols_model_extends_same) with the per-column rule proved for any number of layers (C05_base_column_rule, C05_added_column_rule) and the guard table of tryResolve regenerated from the source (C05_unresolve_table_is_model); the table-level composition for column-changing branches is tied by correspondence, not proved; renames are treated as remove+add, as the code does. Two known findings (untouched rows in base layout when the key is not first; keyless merges) are reported as KNOWN-FINDING. Row hashes are replaced by row equality.',
     lean_modules=["WrglModel.Props.C05"],
     quick_n=300, thorough_n=4000,
     rule="(base, branch1..branchN) tuples, N in 2..3, 3..27 rows (1 in 12: 250..550 rows, several blocks), 2..4 columns, key first / key elsewhere / composite / absent; "
@@ -194,7 +194,7 @@ PROPS["C05"] = dict(
 PROPS["C08"] = dict(
     registered=True,
     level_text="Kernel-checked for every acyclic history, every want, every set of common tips and every depth: the walk of enqueueWants lists exactly the unfolding tree below the want avoiding common tips, hence is closed, sends nothing unreachable, selects tables exactly within the depth, is parent-first (first occurrence of a commit preceded by its non-common parents) and terminates; the polynomial-time clause is proved FALSE of the code (2^k entries on k diamonds; known finding). Correspondence: ClosedSetsFinder.Process/CommitsToSend/TablesToSend == model (as sets) on random DAGs with multi-round haves, unknown hashes, unreachable wants, depth; finderVerdict evaluated by Lean on the implementation's actual list.",
-    level_note=LEVEL_NOTE + "PARTIAL: the theorems are about one want's walk (first want of a round); the multi-want / multi-round bookkeeping of Process (random map order, alreadySeenCommits, pending wants) and ensureWantsAreReachable/findCommons are modelled and compared with the implementation but not proved.",
+    level_note=LEVEL_NOTE + "PARTIAL: C08_walk_* are about one want's walk; C08_all_wants / C08_accepts_reachable_wants / C08_process_sound lift closure, soundness and want acceptance to any number of wants and rounds of Process over the model's bookkeeping (alreadySeenCommits, pending wants); the random map order of the real code is represented by 'any order of the wants'; ensureWantsAreReachable/findCommons are modelled and compared with the implementation but not proved.",
     lean_modules=["WrglModel.Props.C08"],
     quick_n=600, thorough_n=10000,
     rule="random DAGs (1..10 commits quick, ..14 thorough; merges, several roots, 5 timestamp modes, shared tables, shallow commits) and diamond chains of 10..12 diamonds; "
@@ -241,7 +241,7 @@ PROPS["C14"] = dict(
     level_text="Kernel-checked for every fresh transaction, every failure/crash position and every branch order (Go iterates a map): after an interrupted commit plus a re-run every staged branch sits at its staged commit on top of its ORIGINAL head, "
                "moved and logged exactly once, and the transaction is committed; an interrupted run leaves each branch at its old or its final position; a committed transaction can be neither committed nor discarded again and the refused call changes nothing; "
                "discard of an open transaction removes exactly the staged refs; the unguarded variants are proved to violate this. Correspondence: real transaction.Commit/Discard behind fault-injecting store wrappers, every write position, re-runs, double commit, discard-after-commit == model state by state.",
-    level_note=LEVEL_NOTE + "Each ref-store call is assumed atomic (one SQL transaction); faults inside Discard are not explored; the guards are extracted facts (status check + skip of already-logged branches in Commit, status check before deleting staged refs in Discard).",
+    level_note=LEVEL_NOTE + "Each ref-store call is assumed atomic (one SQL transaction); faults inside Discard are modelled (txDiscardFault, C14_discard_fault) and injected at every store call; the guards are extracted facts (status check + skip of already-logged branches in Commit, status check before deleting staged refs in Discard).",
     lean_modules=["WrglModel.Props.C14"],
     quick_n=600, thorough_n=8000,
     rule="transactions staging 1..3 branches (new and existing) over 4 branch names; operation sequences: commit with an injected write failure at every position (0..2k) then "
@@ -272,7 +272,7 @@ PROPS["C16"] = dict(
     registered=True,
     level_text="Kernel-checked for the ingest worker pool as a small-step system: for any number of workers and EVERY schedule, no block or row is lost or duplicated (invariant over schedule prefixes), every completing schedule yields the input's row count and block set (= the one-worker result after ordering by offset), completion is reachable; "
                "the unguarded variant is proved to lose an update. The critical section and the error-channel capacity are facts regenerated from the source. Runtime side: the harness is built with -race and run with seeded yields at the shared-state touch points, 1..16 workers, GOMAXPROCS 1/2/4/16, injected store errors and a hang watchdog.",
-    level_note=LEVEL_NOTE + "PARTIAL: the Go memory model, scheduler and channel implementation are not modelled; the race detector can exhibit a failing schedule but not exclude one. Only the ingest pool is modelled; the differ and merger goroutine pipelines are exercised (C04/C05 runs) but not modelled; double-fault channel behaviour is out of the property's single-error clause.",
+    level_note=LEVEL_NOTE + "PARTIAL: the Go memory model, scheduler and channel implementation are not modelled; the race detector can exhibit a failing schedule but not exclude one. Modelled: the ingest pool (small-step, every schedule), error reporting over the buffered error channels (sendAll) and the progress bar's completion state machine (Model/PBar.lean); the differ and merger goroutine pipelines are exercised (C04/C05 runs) but not modelled; double-fault channel behaviour is out of the property's single-error clause.",
     lean_modules=["WrglModel.Props.C16"],
     race=True, env={"GORACE": "halt_on_error=1"}, case_timeout="200s", case_timeout_s=200,
     quick_n=48, thorough_n=600,
